@@ -342,6 +342,15 @@ pub fn install_panic_hook() {
     }));
 }
 
+/// true if the process-wide panic hook is still the one installed by `install_panic_hook`
+/// (a probe panic is raised and caught here; our hook records its message)
+pub fn panic_hook_intact() -> bool {
+    match guard(|| -> () { std::panic::panic_any("pfv-hook-probe") }) {
+        Err(c) => c.msg == "pfv-hook-probe",
+        Ok(()) => false,
+    }
+}
+
 #[derive(Debug, Clone)]
 pub struct Caught {
     pub msg: String,
